@@ -3,20 +3,24 @@
    range read path (cselector.go updatePoss / checkPosOrAdvance / getPosForward, jiterator.go,
    pkg/cursor/cursor.go open bounds, fiterator.go), for ONE partition.
 
-   A `variant` selects between the code as it is (code_variant) and the proposed repairs:
+   A `variant` selects between the code as it was before the three C02 repairs and the code as it is:
      fix_lb   : chkSelector.updatePoss asks the index for t1-1 (guarding MinInt64) instead of t1
      fix_zero : iwrapper / rebuildIndexInt do not treat timestamp 0 as "unset"
      fix_open : an omitted lower RANGE bound means MinInt64 instead of 0
-   `impl_variant` is the one the correspondence check compares the implementation with.
+   All three repairs are in /repo, so `impl_variant`, the one the correspondence check compares the
+   implementation with and the theorems of props/C02.v are about, is `fixed_variant`. The variants with a
+   flag switched off describe the code before the corresponding repair; they are kept for the theorems
+   that say what each repair bought (props/C02.v, `..._without_..._repair_refuted`).
    Definitions only; lemmas are in proofs/SelectorP.v. *)
 From LR Require Import lib.Base model.TmTree model.CIndex.
 Open Scope Z_scope.
 
 Record variant := mkvariant { fix_lb : bool; fix_zero : bool; fix_open : bool }.
-Definition code_variant : variant := mkvariant false false false.
+(* /repo before the repairs C02-lower-bound, C02-zero-unset, C02-open-lower-bound *)
+Definition unrepaired_variant : variant := mkvariant false false false.
 Definition fixed_variant : variant := mkvariant true true true.
-(* >>> the variant the implementation in /repo currently is (flip when the fixes are applied) <<< *)
-Definition impl_variant : variant := code_variant.
+(* >>> the variant the implementation in /repo is <<< *)
+Definition impl_variant : variant := fixed_variant.
 
 (* ---- iwrapper.Get: running min/max of the timestamps handed to the journal during one Service.Write ---- *)
 Record iw_state := mkiw { iw_min : Z; iw_max : Z; iw_set : bool }.
